@@ -5,6 +5,8 @@ import Mahotas.Proofs.C01
 import Mahotas.Proofs.C01Scatter
 import Mahotas.Proofs.C01Star
 import Mahotas.Proofs.C01Fast
+import Mahotas.Proofs.C01Tables
+import Mahotas.Generated.Tables
 namespace Mahotas.C01
 open Mahotas
 
@@ -30,6 +32,21 @@ def DTypeOK (dt : DT) : Prop := dt.WF ∨ dt = dtBool
 def Reaches (dt : DT) (A : Img Int) (sup : List (List Int × Int)) (q p : List Int)
     (kh : List Int × Int) : Prop :=
   inside A.shape p = true ∧ kh ∈ sup ∧ A.getD p dt.lo ≠ dt.lo ∧ clampPos A.shape (addPos p kh.1) = q
+
+/-- an image whose stored values are all in range is in range (`0` must be representable) -/
+theorem imageInRange_of_data (dt : DT) (A : Img Int) (h0 : dt.InRange 0)
+    (h : ∀ x ∈ A.data.toList, dt.InRange x) : ImageInRange dt A := by
+  intro q
+  unfold Img.getD
+  split
+  · rw [Array.getD_eq_getD_getElem?]
+    cases hx : A.data[ravelI A.shape q]? with
+    | none => exact h0
+    | some x =>
+      apply h
+      have := Array.mem_of_getElem? hx
+      simpa using this
+  · exact h0
 
 theorem getD_lo_inRange (dt : DT) (A : Img Int) (hlh : dt.lo ≤ dt.hi) (hA : ImageInRange dt A)
     (p : List Int) : dt.InRange (A.getD p dt.lo) := by
@@ -274,6 +291,132 @@ theorem C01_fast_dilate_eq_generic (A : Img Int) (Ny Nx By Bx : Nat) (bc : Array
   subst hshape
   exact fastDilate_eq Ny Nx data By Bx bc hNy hNx hdata hA hbc
 
+/-- **C01-T6 (structuring-element tables).** In every dimension `d`:
+`crossElem d r` (what `get_structuring_elem` builds for `None`/an integer, `r` the translated radius) has
+as members exactly the offsets `k ∈ {−1,0,1}^d` with `‖k‖₁ ≤ r` (`l1N` = sum of absolute values), and
+`diskElem d r` (`disk(r, d)`) exactly the offsets `k ∈ {−r..r}^d` with `|k|² < r²` (`sqN` = sum of squares).
+All member entries are 1 (flat); both pass the driver's executable regularity test (`starShaped`,
+`flatHeights`) that `C01_dilate_regular_everywhere` assumes; both are symmetric (`k` member ⇒ `−k` member);
+the cross contains the centre for `r ≥ 0`, the disk for `r ≥ 1`; `disk(0)` is the empty element. -/
+theorem C01_se_tables (d : Nat) :
+    (∀ r : Int,
+      let M := support (List.replicate d 3) (crossElem d r) true
+      (∀ k, k ∈ M.map (·.1) ↔ (k.length = d ∧ ∀ x ∈ k, -1 ≤ x ∧ x ≤ 1) ∧ l1N k ≤ r) ∧
+      (∀ kh ∈ M, kh.2 = 1) ∧
+      starShaped (List.replicate d 3) (M.map (·.1)) = true ∧ flatHeights (M.map (·.2)) = true ∧
+      (∀ k ∈ M.map (·.1), negPos k ∈ M.map (·.1)) ∧
+      (0 ≤ r → List.replicate d 0 ∈ M.map (·.1))) ∧
+    (∀ r : Nat,
+      let M := support (List.replicate d (2 * r + 1)) (diskElem d r) true
+      (∀ k, k ∈ M.map (·.1) ↔ (k.length = d ∧ ∀ x ∈ k, -(r : Int) ≤ x ∧ x ≤ r) ∧ sqN k < (r : Int) * r) ∧
+      (∀ kh ∈ M, kh.2 = 1) ∧
+      starShaped (List.replicate d (2 * r + 1)) (M.map (·.1)) = true ∧ flatHeights (M.map (·.2)) = true ∧
+      (∀ k ∈ M.map (·.1), negPos k ∈ M.map (·.1)) ∧
+      (1 ≤ r → List.replicate d 0 ∈ M.map (·.1)) ∧
+      (r = 0 → M = [])) := by
+  constructor
+  · intro r
+    have h := ball_props d 1 (fun k => decide (l1N k ≤ r))
+      (fun k' k hb hk => by
+        have := (norms_between k' k hb).1
+        simp only [decide_eq_true_eq] at hk ⊢; omega)
+      (fun k hk => by
+        have := (norms_neg k).1
+        simp only [decide_eq_true_eq] at hk ⊢; omega)
+    rw [← crossElem_eq] at h
+    obtain ⟨h1, h2, h3, h4, h5, h6, _⟩ := h
+    refine ⟨?_, h2, h3, h4, h5, ?_⟩
+    · intro k; rw [h1 k]; simp
+    · intro hr; apply h6
+      have := (norms_zero d).1
+      simp only [decide_eq_true_eq]; omega
+  · intro r
+    have h := ball_props d r (fun k => decide (sqN k < ((r * r : Nat) : Int)))
+      (fun k' k hb hk => by
+        have := (norms_between k' k hb).2
+        simp only [decide_eq_true_eq] at hk ⊢; omega)
+      (fun k hk => by
+        have := (norms_neg k).2
+        simp only [decide_eq_true_eq] at hk ⊢; omega)
+    rw [← diskElem_eq] at h
+    obtain ⟨h1, h2, h3, h4, h5, h6, h7⟩ := h
+    refine ⟨?_, h2, h3, h4, h5, ?_, ?_⟩
+    · intro k; rw [h1 k]; simp
+    · intro hr; apply h6
+      have := (norms_zero d).2
+      have hpos : 0 < r * r := Nat.mul_pos hr hr
+      simp only [decide_eq_true_eq]; omega
+    · intro hr; apply h7
+      intro k
+      subst hr
+      have := sqN_nonneg k
+      simp only [decide_eq_false_iff_not]; omega
+
+/-- **C01-T4 + T6 (dilation at every pixel for a centred cross, box or disk).** For bool and every unsigned
+integer dtype, every image of every rank `d` and shape with positive axis lengths, and for the structuring
+element being `crossElem d r` (any radius), `diskElem d r` (any radius) or an all-ones box of any shape
+(odd or even sized), the model of the generic `dilate` kernel, run on the support exactly as the driver
+builds it (`support bshape bc dt.isBool`), equals the lattice definition at **every** pixel. (For signed
+dtypes a 0 entry is a member of height 0 — the element is then not flat and only
+`C01_dilate_eq_spec_boxInterior` applies.) -/
+theorem C01_dilate_cross_box_disk_everywhere (dt : DT) (hdt : DTypeOK dt) (hlo : dt.lo = 0) (A : Img Int)
+    (bshape : List Nat) (bc : Array Int) (q : List Int)
+    (hs : ∀ d ∈ A.shape, 0 < d) (hA : ImageInRange dt A) (hq : inside A.shape q = true)
+    (hreg : (∃ r : Int, bshape = List.replicate A.shape.length 3 ∧ bc = crossElem A.shape.length r) ∨
+            (∃ r : Nat, bshape = List.replicate A.shape.length (2 * r + 1) ∧ bc = diskElem A.shape.length r) ∨
+            (bshape.length = A.shape.length ∧ ∀ i, i < shapeSize bshape → bc.getD i 0 = 1)) :
+    (dilateModel dt A (support bshape bc dt.isBool)).getD (ravelI A.shape q) dt.lo =
+      dilateSpecAt dt A (support bshape bc dt.isBool) q := by
+  -- regularity of the compressed support, entries 0/1, rank
+  have key : bshape.length = A.shape.length ∧
+      (starShaped bshape ((support bshape bc true).map (·.1)) = true ∧
+       flatHeights ((support bshape bc true).map (·.2)) = true ∧ ∀ kh ∈ support bshape bc true, kh.2 = 1) ∧
+      (∀ i, i < shapeSize bshape → bc.getD i 0 = 0 ∨ bc.getD i 0 = 1) := by
+    rcases hreg with ⟨r, rfl, rfl⟩ | ⟨r, rfl, rfl⟩ | ⟨hl, h1⟩
+    · refine ⟨by simp, ?_, ?_⟩
+      · have := C01_se_tables A.shape.length
+        obtain ⟨_, h2, h3, h4, _⟩ := this.1 r
+        exact ⟨h3, h4, h2⟩
+      · intro i hi; rw [crossElem_eq]; exact ballElem_entries _ 1 _ i hi
+    · refine ⟨by simp, ?_, ?_⟩
+      · have := C01_se_tables A.shape.length
+        obtain ⟨_, h2, h3, h4, _⟩ := this.2 r
+        exact ⟨h3, h4, h2⟩
+      · intro i hi; rw [diskElem_eq]; exact ballElem_entries _ r _ i hi
+    · exact ⟨hl, box_regular bshape bc h1, fun i hi => Or.inr (h1 i hi)⟩
+  obtain ⟨hl, ⟨hstar, hflat, hones⟩, h01⟩ := key
+  have hfilter : (support bshape bc dt.isBool).filter (isMember dt) = support bshape bc true := by
+    rcases hdt with wf | rfl
+    · rw [wf.notBool]; exact support_filter_unsigned dt hlo wf.notBool bshape bc
+    · exact support_filter_bool bshape bc
+  have hB : AdmissibleElem dt (support bshape bc dt.isBool) := by
+    intro kh hkh
+    obtain ⟨i, hi, he⟩ := support_heights bshape bc _ kh hkh
+    rcases hdt with wf | rfl
+    · have := wf.hi_pos
+      rcases h01 i hi with h | h
+      · rw [he, h]; exact ⟨⟨by omega, by omega⟩, Or.inl (Int.le_refl _), by simp [wf.notBool]⟩
+      · rw [he, h]; exact ⟨⟨by omega, by omega⟩, Or.inl (by decide), by simp [wf.notBool]⟩
+    · have h1 := hones kh hkh
+      rw [h1]; exact ⟨⟨by decide, by decide⟩, Or.inl (by decide), fun _ => rfl⟩
+  exact C01_dilate_regular_everywhere dt hdt A bshape _ q hs hl
+    (C01_support_offsets_in_box bshape bc _).1 hA hB (by rw [hfilter]; exact hstar)
+    (by rw [hfilter]; exact hflat) hq
+
+/-- **C01-T6 (tables extracted from the sources).** `Generated.defaultCross` (the literal 2-D default of
+`get_structuring_elem`) and `Generated.translateSizes` (its `translate_sizes` table) are regenerated from
+`morph.py` on every run; the literal cross is `crossElem 2 1`, and the table sends the connectivity
+counts (2-D, 4) ↦ radius 1, (2-D, 8) ↦ 2, (3-D, 6) ↦ 1, whose ℓ1 balls have 5, 9 and 7 members — one more
+(the centre) than the number of neighbours asked for. -/
+theorem C01_se_tables_generated :
+    Generated.defaultCross = (crossElem 2 1).toList ∧
+    Generated.translateSizes = [(2, 4, 1), (2, 8, 2), (3, 6, 1)] ∧
+    (Generated.translateSizes.map fun t =>
+      ((crossElem t.1 (t.2.2 : Int)).toList.filter (· ≠ 0)).length) = [5, 9, 7] ∧
+    (Generated.translateSizes.all fun t =>
+      ((crossElem t.1 (t.2.2 : Int)).toList.filter (· ≠ 0)).length == t.2.1 + 1) = true := by
+  decide +kernel
+
 /-! non-vacuity: a 2×3 int8 image with negative values and a non-flat, even-sized element
     meets every hypothesis of `C01_erode_eq_spec`. -/
 example :
@@ -332,4 +475,20 @@ example :
     (allPos A.shape).map (fastErodeAt A [5, 5] bc) = [0, 0, 0, 0] ∧
     (fastDilate A [5, 5] bc).toList = [0, 1, 1, 0] ∧
     (dilateModel dtBool A (support [5, 5] bc true)).toList = [0, 1, 1, 0] := by
+  decide +kernel
+
+/-! non-vacuity of T4 + T6: a 2×3 uint8 image under the default cross meets every hypothesis of
+    `C01_dilate_cross_box_disk_everywhere` (here at the corner pixel, where the scatter is clamped),
+    and the cross is what the tables say. -/
+example :
+    let A : Img Int := { shape := [2, 3], data := #[0, 200, 255, 7, 0, 31] }
+    let sup := support [3, 3] (crossElem 2 1) false
+    (dilateModel (dtU 8) A sup).getD (ravelI A.shape [0, 0]) 0 = dilateSpecAt (dtU 8) A sup [0, 0] :=
+  C01_dilate_cross_box_disk_everywhere (dtU 8) (Or.inl wf_u8) rfl _ [3, 3] (crossElem 2 1) [0, 0]
+    (by decide) (imageInRange_of_data _ _ (by simp [DT.InRange, dtU]) (by simp [DT.InRange, dtU])) (by decide) (Or.inl ⟨1, rfl, rfl⟩)
+
+example :
+    (support [3, 3] (crossElem 2 1) true).map (·.1) = [[-1, 0], [0, -1], [0, 0], [0, 1], [1, 0]] ∧
+    (diskElem 2 2).toList = [0,0,0,0,0, 0,1,1,1,0, 0,1,1,1,0, 0,1,1,1,0, 0,0,0,0,0] ∧
+    (diskElem 2 0).toList = [0] := by
   decide +kernel
